@@ -138,7 +138,7 @@ func genReflect(out string, root, irefl *pkgFiles) {
 
 	// 3. Stack.resolveStep: the map[string]string case
 	strMapMissingAbsent := false
-	if fd := root.method("Stack", "resolveStep"); fd != nil {
+	if fd := pathStepDecl(root); fd != nil {
 		found := false
 		ast.Inspect(fd.Body, func(n ast.Node) bool {
 			cc, isCC := n.(*ast.CaseClause)
@@ -881,6 +881,8 @@ func genParseFacts(repo, out string, root *pkgFiles) {
 	rule := ""
 	if ip, err := parseDir(filepath.Join(repo, "internal/parser")); err == nil {
 		if fd := ip.fn("ParseTemplateBytes"); fd != nil {
+			canonPkgValues = pkgValues(ip)
+			defer func() { canonPkgValues = nil }()
 			for _, st := range fd.Body.List {
 				if is, ok := st.(*ast.IfStmt); ok && is.Init == nil {
 					// the first `if` whose body — or a helper it delegates to — parses a whole document; the rule is reported by its MEANING
@@ -962,6 +964,18 @@ func genParseFacts(repo, out string, root *pkgFiles) {
 				}
 				if exprString(x.Fun) == "expr.Compile" {
 					seen := map[string]bool{}
+					// a package-level variable that nothing writes after initialisation (a table of compile options built once) is a constant of
+					// the program, not an input of the compilation: the process-wide state fact lists the ones that ARE written
+					immutable := map[string]bool{}
+					mutable := map[string]bool{}
+					for _, v := range packageState(root, "vuego") {
+						mutable[strings.TrimPrefix(v, "vuego.")] = true
+					}
+					for name := range pkgValues(root) {
+						if !mutable[name] {
+							immutable[name] = true
+						}
+					}
 					for _, a := range x.Args {
 						ast.Inspect(a, func(m ast.Node) bool {
 							switch y := m.(type) {
@@ -970,7 +984,7 @@ func genParseFacts(repo, out string, root *pkgFiles) {
 									return false // a function of the expr package itself
 								}
 							case *ast.Ident:
-								if !seen[y.Name] {
+								if !seen[y.Name] && !immutable[y.Name] {
 									seen[y.Name] = true
 									reads = append(reads, y.Name)
 								}
@@ -999,7 +1013,7 @@ func genParseFacts(repo, out string, root *pkgFiles) {
 	// Guards = the conjuncts of every enclosing `if`, and the case lists of enclosing switches; the three facts are read off by role.
 	var guards []string
 	lower, upper, kind := false, false, false
-	if fd := root.method("Stack", "resolveStep"); fd != nil {
+	if fd := pathStepDecl(root); fd != nil {
 		conj := func(e ast.Expr) []ast.Expr {
 			var out []ast.Expr
 			var split func(e ast.Expr)
